@@ -493,6 +493,29 @@ func init() {
 			keys = append(keys, ks)
 			scripts = append(scripts, map[string]interface{}{"mode": "conc", "clients": 16, "ops": ops})
 		}
+		// bursts of creates whose messages differ in a coded element (currency codes): tables or memos the library
+		// fills on first use are touched by several requests at once
+		for _, m0 := range pool {
+			if _, has := m0.Tags["InstructedAmount"]; !has {
+				continue
+			}
+			var ops []httpOp
+			var ks []string
+			for c := 0; c < 16; c++ {
+				for i := 0; i < 2; i++ {
+					m := m0.Clone()
+					m.setElem("InstructedAmount", "CurrencyCode", currencyCodes[(c*2+i)%len(currencyCodes)])
+					op := opCreateJSON("", m)
+					op.Client = c
+					ops = append(ops, op)
+					ks = append(ks, "")
+				}
+			}
+			all = append(all, ops)
+			keys = append(keys, ks)
+			scripts = append(scripts, map[string]interface{}{"mode": "conc", "clients": 16, "ops": ops})
+			break
+		}
 		results, err := runServerScripts(scripts, true)
 		if err != nil {
 			msg := err.Error()
@@ -581,6 +604,10 @@ func init() {
 var linTextOf = map[string]string{}
 
 type linIn struct{ op, id, key, ct, q string }
+
+// ISO 4217 codes used to vary a coded element between concurrent requests
+var currencyCodes = []string{"EUR", "GBP", "JPY", "CHF", "CAD", "AUD", "NZD", "SEK", "NOK", "DKK", "PLN", "CZK", "HUF", "MXN", "BRL", "ZAR",
+	"INR", "CNY", "HKD", "SGD", "KRW", "TRY", "ILS", "AED", "SAR", "THB", "MYR", "IDR", "PHP", "CLP", "COP", "PEN"}
 
 // queries of the contents requests in the bursts and the layout each one selects
 var burstQueries = []struct {
